@@ -1,6 +1,7 @@
-// C02 harness: real event loop (epoll or select engine, argv[1]) + real TimerEvents on a virtual
-// monotonic clock; one op per loop pass; prints every callback (`F j en=…`) and the isEnabled()
-// vector after every op.  Format matches lean/Driver/C02.lean (trace acceptor).
+// C02 harness: real event loop (epoll or select engine, argv[1]) + real TimerEvents / the real TimerPool on
+// virtual clocks (monotonic and system); one op per loop pass; prints every callback (`F j en=…`), the
+// return values of the calls the callback made (`R …`) and the isEnabled() vector after every op.
+// Format matches lean/Driver/C02.lean (trace acceptor).
 #include "vh.h"
 #include "vtime.h"
 #include "loopdrv.h"
@@ -12,14 +13,16 @@
 
 using namespace tbox::event;
 
-struct Act { char kind; size_t j; uint64_t ms; bool oneshot; };
+// one call of a callback script; `sub` = the script of the timer created by n[...] / a<ms>[...] / v<ms>[...]
+struct Act { char kind; size_t j; uint64_t ms; bool oneshot; std::vector<Act> sub; };
 static std::vector<TimerEvent*> objs;          // plain TimerEvents (nullptr = destroyed, or a TimerPool-owned timer)
-static std::vector<char> pool_kind;            // 0 = plain object, 'a' = TimerPool::doAfter, 'e' = TimerPool::doEvery
+static std::vector<char> pool_kind;            // 0 = plain object, 'a' = TimerPool::doAfter/doAt, 'e' = TimerPool::doEvery
 static std::vector<bool> pool_alive;
 static std::vector<tbox::eventx::TimerPool::TimerToken> pool_tok;
 static tbox::eventx::TimerPool *pool = nullptr;
 static std::vector<std::vector<Act>> scripts;
 static Loop *loop = nullptr;
+static int64_t wall0 = 0;                      // system clock reading (ms) when the case started
 
 static std::string bits() {
     std::string s;
@@ -39,8 +42,47 @@ static int pool_cancel(size_t j) {
     return r ? 1 : 0;
 }
 
+static std::string run_script(const std::vector<Act> &sc);
+
+static void on_callback(size_t id) {
+    if (pool_kind[id] == 'a') pool_alive[id] = false;   // a doAfter timer is gone once it has fired
+    std::cout << "F " << id << " en=" << bits() << "\n";
+    std::vector<Act> sc = scripts[id];                  // copy: the script table may grow while it runs
+    std::cout << "R " << run_script(sc) << "\n";
+}
+
+static size_t make_plain(const std::vector<Act> &sc) {
+    size_t id = objs.size();
+    TimerEvent *t = loop->newTimerEvent("verif");
+    objs.push_back(t); scripts.push_back(sc); pool_kind.push_back(0); pool_alive.push_back(false); pool_tok.emplace_back();
+    t->setCallback([id] { on_callback(id); });
+    return id;
+}
+
+// kind: 'a' doAfter(ms), 'e' doEvery(ms), 't' doAt(system time point `ms`, absolute)
+static bool make_pool(char kind, uint64_t ms, const std::vector<Act> &sc) {
+    size_t id = objs.size();
+    objs.push_back(nullptr); scripts.push_back(sc); pool_kind.push_back(kind == 'e' ? 'e' : 'a');
+    pool_alive.push_back(true); pool_tok.emplace_back();
+    auto cb = [id] { on_callback(id); };
+    tbox::eventx::TimerPool::TimerToken tok;
+    if (kind == 'a') tok = pool->doAfter(std::chrono::milliseconds(ms), cb);
+    else if (kind == 'e') tok = pool->doEvery(std::chrono::milliseconds(ms), cb);
+    else tok = pool->doAt(std::chrono::system_clock::time_point(std::chrono::milliseconds((int64_t)ms)), cb);
+    pool_tok[id] = tok;
+    return !tok.isNull();
+}
+
 static int apply(const Act &a) {
     if (a.kind == 'c') return pool_cancel(a.j);
+    if (a.kind == 'z') {
+        pool->cleanup();
+        for (size_t i = 0; i < objs.size(); ++i) if (pool_kind[i]) pool_alive[i] = false;
+        return 1;
+    }
+    if (a.kind == 'a') return make_pool('a', a.ms, a.sub) ? 1 : 0;
+    if (a.kind == 'v') return make_pool('e', a.ms, a.sub) ? 1 : 0;
+    if (a.kind == 'n') { make_plain(a.sub); return 1; }
     if (a.j >= objs.size() || objs[a.j] == nullptr) return 0;   // dead or unknown object: no-op (model: alive = false)
     TimerEvent *t = objs[a.j];
     switch (a.kind) {
@@ -52,47 +94,95 @@ static int apply(const Act &a) {
     return 0;
 }
 
-// "e1" "d0" "x2" "i3:20:o"
-static bool parse_act(const std::string &w, Act &a) {
-    if (w.size() < 2) return false;
-    a.kind = w[0]; a.ms = 0; a.oneshot = false;
-    if (a.kind == 'i') {
-        size_t p1 = w.find(':'), p2 = w.rfind(':');
-        if (p1 == std::string::npos || p2 == p1) return false;
-        uint64_t j; if (!vh::to_u64(w.substr(1, p1 - 1), j)) return false; a.j = j;
-        if (!vh::to_u64(w.substr(p1 + 1, p2 - p1 - 1), a.ms)) return false;
-        std::string m = w.substr(p2 + 1);
-        if (m != "o" && m != "p") return false;
-        a.oneshot = (m == "o");
-        return a.ms >= 1;
-    }
-    if (a.kind != 'e' && a.kind != 'd' && a.kind != 'x' && a.kind != 'c') return false;
-    uint64_t j; if (!vh::to_u64(w.substr(1), j)) return false; a.j = j;
-    return true;
+static std::string run_script(const std::vector<Act> &sc) {
+    std::string r;
+    for (auto &a : sc) r.push_back(apply(a) ? '1' : '0');
+    return r.empty() ? "-" : r;
 }
 
+// ---- script parser (same grammar as lean/Driver/C02.lean: pItems / pNested / pItem) ----
+static bool take_nat(const std::string &w, size_t &p, uint64_t &v) {
+    size_t b = p; v = 0;
+    while (p < w.size() && w[p] >= '0' && w[p] <= '9') { v = v * 10 + (uint64_t)(w[p] - '0'); ++p; }
+    return p > b && p - b <= 18;
+}
+static bool p_items(const std::string &w, size_t &p, bool has_self, size_t self, bool pl, std::vector<Act> &out);
+static bool p_nested(const std::string &w, size_t &p, bool pl, std::vector<Act> &out) {
+    if (p >= w.size() || w[p] != '[') return false;
+    ++p;
+    if (!p_items(w, p, false, 0, pl, out)) return false;
+    if (p >= w.size() || w[p] != ']') return false;
+    ++p;
+    return true;
+}
+static bool p_item(const std::string &w, size_t &p, bool has_self, size_t self, bool pl, Act &a) {
+    if (p >= w.size()) return false;
+    a = Act(); a.kind = w[p]; a.j = 0; a.ms = 0; a.oneshot = false;
+    ++p;
+    uint64_t n;
+    switch (a.kind) {
+        case 'c': if (!pl || !take_nat(w, p, n)) return false; a.j = n; return true;
+        case 'z': return pl;
+        case 'a': case 'v':
+            if (!pl || !take_nat(w, p, n) || n < 1 || n > 100000) return false;
+            a.ms = n; return p_nested(w, p, pl, a.sub);
+        case 'n': if (pl) return false; return p_nested(w, p, pl, a.sub);
+        case 'e': case 'd': if (pl || !take_nat(w, p, n)) return false; a.j = n; return true;
+        case 'x':
+            if (pl || !take_nat(w, p, n)) return false;
+            a.j = n;
+            return has_self && n != self;     // destroying oneself inside one's own callback is outside the property
+        case 'i':
+            if (pl || !take_nat(w, p, n)) return false;
+            a.j = n;
+            if (p >= w.size() || w[p] != ':') return false;
+            ++p;
+            if (!take_nat(w, p, n) || n < 1) return false;
+            a.ms = n;
+            if (p + 1 >= w.size() || w[p] != ':' || (w[p + 1] != 'o' && w[p + 1] != 'p')) return false;
+            a.oneshot = (w[p + 1] == 'o'); p += 2;
+            return true;
+    }
+    return false;
+}
+static bool p_items(const std::string &w, size_t &p, bool has_self, size_t self, bool pl, std::vector<Act> &out) {
+    out.clear();
+    if (p >= w.size() || w[p] == ']') return true;
+    for (;;) {
+        Act a;
+        if (!p_item(w, p, has_self, self, pl, a)) return false;
+        out.push_back(a);
+        if (p < w.size() && w[p] == ',') {
+            ++p;
+            if (p >= w.size() || w[p] == ']') return false;
+            continue;
+        }
+        return true;
+    }
+}
 static bool parse_script(const std::string &w, std::vector<Act> &out, size_t self, bool pool_script) {
     out.clear();
     if (w == "-") return true;
-    std::stringstream ss(w); std::string item;
-    while (std::getline(ss, item, ',')) {
-        Act a; if (!parse_act(item, a)) return false;
-        if ((a.kind == 'c') != pool_script) return false;      // pool callbacks only cancel pool timers; plain ones never do
-        if (a.kind == 'x' && a.j == self) return false;   // destroying oneself inside one's own callback is outside the property
-        out.push_back(a);
-    }
-    return true;
+    if (w.empty()) return false;
+    size_t p = 0;
+    return p_items(w, p, true, self, pool_script, out) && p == w.size();
+}
+static bool parse_act(const std::string &w, Act &a) {
+    size_t p = 0;
+    return p_item(w, p, false, 0, false, a) && p == w.size();
 }
 
 static void reset_all() {
     if (pool) pool->cleanup();
     for (auto *&t : objs) { delete t; t = nullptr; }
     objs.clear(); scripts.clear(); pool_kind.clear(); pool_alive.clear(); pool_tok.clear(); mode = 0;
+    wall0 = vt::wall_ms();
 }
 
 int main(int argc, char **argv) {
     LogOutput_Disable();
     vt::enable(1000, 1700000000000LL);
+    wall0 = vt::wall_ms();
     std::string engine = argc > 1 ? argv[1] : "epoll", next_engine = engine;
     bool eof = false;
   while (!eof) {
@@ -108,44 +198,40 @@ int main(int argc, char **argv) {
         auto w = vh::words(line);
         if (w.empty()) return true;
         if (w[0] == "case") { reset_all(); std::cout << line << "\n"; return true; }
-        uint64_t n;
+        uint64_t n; int64_t sn;
         if (w[0] == "engine" && w.size() == 2 && (w[1] == "epoll" || w[1] == "select") && objs.empty()) {
             // only as the first op of a case: switch the back-end (leave this loop, start the other)
             std::cout << "P engine=" << w[1] << "\n";
             if (w[1] != engine) { next_engine = w[1]; return false; }
             return true;
         }
-        bool is_pool_op = (w[0] == "pafter" || w[0] == "pevery" || w[0] == "pcancel" || w[0] == "pcleanup");
+        bool is_pool_op = (w[0] == "pafter" || w[0] == "pevery" || w[0] == "pcancel" || w[0] == "pcleanup" || w[0] == "pat" || w[0] == "wall");
         bool is_plain_op = (w[0] == "new" || w[0] == "init" || w[0] == "en" || w[0] == "dis" || w[0] == "del");
         if ((is_pool_op && mode == 1) || (is_plain_op && mode == 2)) { std::cout << "bad-op\n"; return true; }
         if (w[0] == "new" && w.size() == 2) {
-            size_t id = objs.size();
             std::vector<Act> sc;
-            if (!parse_script(w[1], sc, id, false)) { std::cout << "bad-op\n"; return true; }
+            if (!parse_script(w[1], sc, objs.size(), false)) { std::cout << "bad-op\n"; return true; }
             mode = 1;
-            TimerEvent *t = loop->newTimerEvent("verif");
-            objs.push_back(t); scripts.push_back(sc); pool_kind.push_back(0); pool_alive.push_back(false); pool_tok.emplace_back();
-            t->setCallback([id] {
-                std::cout << "F " << id << " en=" << bits() << "\n";
-                std::vector<Act> sc = scripts[id];          // copy: the script may not change, but stay safe
-                for (auto &a : sc) apply(a);
-            });
+            make_plain(sc);
             std::cout << "P ret=1 en=" << bits() << "\n";
         } else if ((w[0] == "pafter" || w[0] == "pevery") && w.size() == 3 && vh::to_u64(w[1], n) && n >= 1 && n <= 100000) {
-            size_t id = objs.size();
             std::vector<Act> sc;
-            if (!parse_script(w[2], sc, id + 1000000, true)) { std::cout << "bad-op\n"; return true; }
+            if (!parse_script(w[2], sc, 0, true)) { std::cout << "bad-op\n"; return true; }
             mode = 2;
-            bool after = (w[0] == "pafter");
-            objs.push_back(nullptr); scripts.push_back(sc); pool_kind.push_back(after ? 'a' : 'e'); pool_alive.push_back(true); pool_tok.emplace_back();
-            auto cb = [id, after] {
-                if (after) pool_alive[id] = false;           // a doAfter timer is gone once it has fired
-                std::cout << "F " << id << " en=" << bits() << "\n";
-                std::vector<Act> sc = scripts[id];
-                for (auto &a : sc) apply(a);
-            };
-            pool_tok[id] = after ? pool->doAfter(std::chrono::milliseconds(n), cb) : pool->doEvery(std::chrono::milliseconds(n), cb);
-            std::cout << "P ret=1 en=" << bits() << "\n";
+            bool ok = make_pool(w[0] == "pafter" ? 'a' : 'e', n, sc);
+            std::cout << "P ret=" << (ok ? 1 : 0) << " en=" << bits() << "\n";
+        } else if (w[0] == "pat" && w.size() == 3 && vh::to_u64(w[1], n) && n <= 100000000) {
+            // doAt(time point = case's wall epoch + n ms); only time points 1..100000 ms ahead of the system clock
+            std::vector<Act> sc;
+            int64_t ahead = (int64_t)n - (vt::wall_ms() - wall0);
+            if (!parse_script(w[2], sc, 0, true) || ahead < 1 || ahead > 100000) { std::cout << "bad-op\n"; return true; }
+            mode = 2;
+            bool ok = make_pool('t', (uint64_t)(wall0 + (int64_t)n), sc);
+            std::cout << "P ret=" << (ok ? 1 : 0) << " en=" << bits() << "\n";
+        } else if (w[0] == "wall" && w.size() == 2 && vh::to_i64(w[1], sn) && sn >= -100000 && sn <= 100000) {
+            mode = 2;
+            vt::set_wall_ms(vt::wall_ms() + sn);          // the system clock jumps; the monotonic clock does not
+            std::cout << "P wall\n";
         } else if (w[0] == "pcancel" && w.size() == 2 && vh::to_u64(w[1], n)) {
             int r = pool_cancel(n); mode = 2;
             std::cout << "P ret=" << r << " en=" << bits() << "\n";
@@ -156,15 +242,15 @@ int main(int argc, char **argv) {
         } else if (w[0] == "adv" && w.size() == 2 && vh::to_u64(w[1], n) && n <= 100000) {
             vt::advance_ms((int64_t)n);
             pending_adv = true;                              // timers fire in the next pass; then we report
-        } else if (w.size() == 2 || w.size() == 4) {
-            Act a; std::string tok;
-            if (w[0] == "init" && w.size() == 4) tok = "i" + w[1] + ":" + w[2] + ":" + w[3];
-            else if (w[0] == "en" && w.size() == 2) tok = "e" + w[1];
-            else if (w[0] == "dis" && w.size() == 2) tok = "d" + w[1];
-            else if (w[0] == "del" && w.size() == 2) tok = "x" + w[1];
-            if (tok.empty() || !parse_act(tok, a) || a.j >= objs.size()) { std::cout << "bad-op\n"; return true; }
-            int r = apply(a);
-            std::cout << "P ret=" << (r ? 1 : 0) << " en=" << bits() << "\n";
+        } else if (w[0] == "init" && w.size() == 4) {
+            Act a;
+            if (!parse_act("i" + w[1] + ":" + w[2] + ":" + w[3], a) || a.j >= objs.size()) { std::cout << "bad-op\n"; return true; }
+            mode = 1;
+            std::cout << "P ret=" << (apply(a) ? 1 : 0) << " en=" << bits() << "\n";
+        } else if ((w[0] == "en" || w[0] == "dis" || w[0] == "del") && w.size() == 2 && vh::to_u64(w[1], n) && n < objs.size()) {
+            Act a; a.kind = w[0] == "en" ? 'e' : (w[0] == "dis" ? 'd' : 'x'); a.j = n; a.ms = 0; a.oneshot = false;
+            mode = 1;
+            std::cout << "P ret=" << (apply(a) ? 1 : 0) << " en=" << bits() << "\n";
         } else {
             std::cout << "bad-op\n";
         }
